@@ -56,7 +56,8 @@ type C15Case struct {
 	InputN     int     `json:"input_n"`  // messages arriving on the input port
 	Script     []c15Op `json:"script"`
 	Procs      int     `json:"procs"`
-	Direct     bool    `json:"direct"` // feed the fan-out directly (no ProcessMidiEvents in front of it)
+	Direct     bool    `json:"direct"`            // feed the fan-out directly (no ProcessMidiEvents in front of it)
+	IdleMs     int     `json:"idle_ms,omitempty"` // emitters and the input stream pause this long half-way (a long-lived, mostly idle transport)
 }
 
 func seqMsg(seq int) []byte { return []byte{0x90, byte(seq >> 7 & 0x7f), byte(seq & 0x7f)} }
@@ -127,17 +128,26 @@ func runC15(c *C15Case, nontrivial *bool) *Violation {
 	// ---- output path: emitters -> port ----
 	var collected [][]byte
 	collectDone := make(chan struct{})
+	collectReached := make(chan struct{})
+	idle := time.Duration(c.IdleMs) * time.Millisecond
 	totalOut := 0
 	for _, n := range c.Emitters {
 		totalOut += n
 	}
 	if !c.Direct {
+		if totalOut == 0 {
+			close(collectReached)
+		}
 		go func() {
+			// keeps reading until the transport is stopped: anything beyond what was emitted is a finding too
 			defer close(collectDone)
-			for len(collected) < totalOut {
+			for {
 				select {
 				case m := <-pout.ch:
 					collected = append(collected, append([]byte(nil), m...))
+					if len(collected) == totalOut {
+						close(collectReached)
+					}
 				case <-ctx.Done():
 					return
 				}
@@ -146,6 +156,9 @@ func runC15(c *C15Case, nontrivial *bool) *Violation {
 		for e, n := range c.Emitters {
 			go func(e, n int) {
 				for i := 0; i < n; i++ {
+					if idle > 0 && i == (n+1)/2 {
+						time.Sleep(idle)
+					}
 					select {
 					case midiEventsOut <- midi.Event{0x90 | byte(e), byte(i >> 7 & 0x7f), byte(i & 0x7f)}:
 					case <-ctx.Done():
@@ -159,6 +172,7 @@ func runC15(c *C15Case, nontrivial *bool) *Violation {
 		}
 	} else {
 		close(collectDone)
+		close(collectReached)
 	}
 
 	// ---- input path: feeder -> (ProcessMidiEvents ->) fan-out -> consumers ----
@@ -167,6 +181,9 @@ func runC15(c *C15Case, nontrivial *bool) *Violation {
 	go func() {
 		defer close(feederDone)
 		for i := 0; i < c.InputN; i++ {
+			if idle > 0 && i == (c.InputN+1)/2 {
+				time.Sleep(idle)
+			}
 			atomic.AddInt64(&begun, 1)
 			if c.Direct {
 				select {
@@ -368,7 +385,7 @@ func runC15(c *C15Case, nontrivial *bool) *Violation {
 	}
 	select {
 	case <-feederDone:
-	case <-time.After(c15Guard):
+	case <-time.After(c15Guard + idle):
 		rep, _ := blockedReport()
 		return violation("C15", "input-stalled", "", "the input stream stopped flowing although every remaining consumer is reading (%d of %d messages accepted)\n%s", atomic.LoadInt64(&begun), c.InputN, rep)
 	}
@@ -399,17 +416,27 @@ func runC15(c *C15Case, nontrivial *bool) *Violation {
 		}
 	}
 	select {
-	case <-collectDone:
-	case <-time.After(c15Guard):
+	case <-collectReached:
+	case <-time.After(c15Guard + idle):
+		cancel()
+		<-collectDone
 		return violation("C15", "output-lost", "", "only %d of %d emitted messages reached the output port", len(collected), totalOut)
 	}
+	if !c.Direct {
+		time.Sleep(2 * time.Millisecond) // a duplicate of the last message would be right behind it
+	}
 	cancel()
+	<-collectDone
 	if c.Direct {
 		close(midiEventsIn) // lets the fan-out's delivery goroutine end
 	}
 
 	// ---- oracles ----
 	next := make([]int, len(c.Emitters))
+	if len(collected) > totalOut {
+		// which one it is gets reported by the order oracle below, unless it is not even a message of ours
+		classify("more messages at the port than were emitted")
+	}
 	for i, m := range collected {
 		if len(m) != 3 || m[0]&0xf0 != 0x90 || int(m[0]&0x0f) >= len(c.Emitters) {
 			return violation("C15", "output-corrupted", "", "message %d at the output port is % x, which no emitter sent", i, m)
@@ -516,5 +543,28 @@ func genC15(t *rapid.T) C15Case {
 }
 
 func TestC15(t *testing.T) { ReplayOrRapid(t, NewRun(t, "C15"), checkC15, genC15) }
+
+// TestC15LongLived: the same pipeline kept alive for seconds (a transport that is mostly idle, as in real use):
+// traffic, a pause of 5.2-7 s (quick) / up to 65 s (thorough), traffic again. Anything the relay or the fan-out does
+// on a timer shows up as a message that was never emitted, a duplicate or a gap.
+func genC15Long(t *rapid.T) C15Case {
+	c := genC15(t)
+	if os.Getenv("VERIF_TIER") == "thorough" {
+		c.IdleMs = rapid.SampledFrom([]int{5200, 10500, 15500, 31000, 61000, 65000}).Draw(t, "idleMs")
+	} else {
+		c.IdleMs = rapid.IntRange(5200, 7000).Draw(t, "idleMs")
+	}
+	// no script step may leave a consumer stalled across the pause: keep attach / detach / wait only
+	var script []c15Op
+	for _, op := range c.Script {
+		if op.Kind != "stall" && op.Kind != "resume" {
+			script = append(script, op)
+		}
+	}
+	c.Script = script
+	return c
+}
+
+func TestC15LongLived(t *testing.T) { ReplayOrRapid(t, NewRun(t, "C15"), checkC15, genC15Long) }
 
 var _ = sync.Mutex{}
